@@ -1,5 +1,6 @@
 (* C16 — FormatString is a lossless, canonically indented re-layout of String. *)
-From Anytype Require Import Base FloatBits Value GoInt Utf8 Json JsonDoc JsonRefProofs SerializeProofs FormatProofs.
+From Anytype Require Import Base FloatBits Value GoInt Utf8 Json JsonDoc JsonRefProofs SerializeProofs FormatProofs FormatModel.
+From Anytype Require Import SourceTables SourceTablesProofs. From AnytypeGen Require Import GenTables.
 Local Open Scope Z_scope.
 
 Section C16.
@@ -27,6 +28,13 @@ Section C16.
   Theorem C16_idempotent : forall v n, val_ok v = true -> indent_text n (format v n) = format v n.
   Proof. exact (format_idempotent fmt_e fmt_f F2). Qed.
 End C16.
+
+(* every indent outside 0..10 panics; inside the range FormatString is json.Indent over String() (what the theorems above describe) *)
+Theorem C16_range : forall fmt_e fmt_f v indent, format_string fmt_e fmt_f v indent = Panic <-> (indent < 0 \/ 10 < indent).
+Proof. exact format_string_range. Qed.
+Theorem C16_in_range : forall fmt_e fmt_f v indent, 0 <= indent <= 10 ->
+  format_string fmt_e fmt_f v indent = Ok (format_model fmt_e fmt_f v (Z.to_nat indent)).
+Proof. exact format_string_in_range. Qed.
 
 (* the layout: one element per line, n spaces per nesting level, empty containers on one line *)
 Theorem C16_list_layout : forall n depth w elems, elems <> [] ->
@@ -57,12 +65,29 @@ Example C16_nonvacuous :
 ]".
 Proof. vm_compute. reflexivity. Qed.
 
+
+(* ---- second tie for the range guard: the condition of the `if ... { panic }` that opens each FormatString method, as the
+   translator reads it from the source on every run; when it is a combination of comparisons of the parameter with integer
+   literals it must be true exactly where the model panics - for every integer, by the checker's soundness theorem ---- *)
+Theorem C16_guard_checker_sound : forall g fmt_e fmt_f v n, guard_ok g = true ->
+  (geval g n = Some true <-> format_string fmt_e fmt_f v n = Panic).
+Proof. exact guard_sound_format. Qed.
+Fixpoint guard_recognised (g : guard) : bool :=
+  match g with GLt _ | GGt _ => true | GOr a b | GAnd a b => guard_recognised a && guard_recognised b | GOther _ | GNone => false end.
+Theorem C16_guards_generated :
+  forallb (fun ng => implb (guard_recognised (snd ng)) (guard_ok (snd ng))) gen_format_guards = true.
+Proof. vm_compute. reflexivity. Qed.
+
 Print Assumptions C16_canonical.
 Print Assumptions C16_nonempty.
 Print Assumptions C16_valid.
 Print Assumptions C16_same_data.
 Print Assumptions C16_idempotent.
+Print Assumptions C16_range.
+Print Assumptions C16_in_range.
 Print Assumptions C16_list_layout.
 Print Assumptions C16_list_lines.
 Print Assumptions C16_object_lines.
 Print Assumptions C16_layout_keeps_meaning.
+Print Assumptions C16_guard_checker_sound.
+Print Assumptions C16_guards_generated.
